@@ -728,6 +728,10 @@ func checkC17(c *Ctx) {
 	addFixed("rtp.VideoCodecParameters", rtp.VideoCodecParameters{
 		Profiles: []rtp.VideoCodecProfile{{0}, {0}}, Levels: []rtp.VideoCodecLevel{{0}}, Packetizations: []rtp.VideoCodecPacketization{{0}, {1}, {0}}})
 
+	// the two shapes for which the decoder is known not to return what was encoded (known findings F34, F35)
+	addFixed("synInlineMulti", synInlineMulti{[]synPairU{{1, 2}, {3, 4}}})
+	addFixed("synTagged", synTagged{[]synBytesElem{{[]byte{}}, {[]byte("a")}}})
+
 	perType := c.Pick(25, 300)
 	for ui, u := range universe {
 		for k := 0; k < perType; k++ {
@@ -820,6 +824,11 @@ func checkC17(c *Ctx) {
 				res := "round-trips"
 				if out != "ok "+want {
 					res = "does-not-round-trip"
+				}
+				if res != "round-trips" && (why == "inline-multi-field" || why == "empty-list-element") {
+					// supported field kinds (an inline list, a list element) for which the round trip fails: violations of
+					// the property, recorded as known findings F34 / F35 (the reader's tag → values map cannot express them)
+					c.Violate("value changed by tlv8 Marshal/Unmarshal round trip ("+why+")", cs.id, lines[i], "ok "+want, out)
 				}
 				if excludedSeen[why] == nil {
 					excludedSeen[why] = map[string]int{}
